@@ -63,7 +63,7 @@ pub fn gen_env(rng: &mut Rng, cfg: &Cfg, knobs: Knobs) -> (SimEnv, std::rc::Rc<s
         cfg: cfg.clone(), rng: rng.fork(), path, alt_path: alt, target_dist: dist,
         target_answers: rng.chance(4, 5), pending: vec![],
         read_timeout_ns: *rng.pick(&[ms / 10, ms, 10 * ms]), send_cost_ns: *rng.pick(&[0, 1000, 100_000]),
-        iter_budget: 400, iters: 0, knobs, deliveries: deliveries.clone(), round: 0, sent_seqs: std::collections::HashMap::new(), use_alt: false,
+        iter_budget: 400, iters: 0, knobs, deliveries: deliveries.clone(), round: 0, sent_seqs: std::collections::HashMap::new(), use_alt: false, burst_left: 0,
     };
     (env, deliveries)
 }
@@ -156,7 +156,8 @@ pub fn run(args: &Args, out: &mut Out) {
     let n = args.n.unwrap_or(if args.tier_thorough { 20000 } else { 1500 });
     for _ in 0..n {
         let cfg = gen_cfg(&mut rng);
-        let knobs = match rng.below(4) {
+        let knobs = match if cfg.proto == Protocol::Tcp { rng.below(5) } else { rng.below(4) } {
+            4 => Knobs { p_inuse_burst: 200, inuse_burst_max: *rng.pick(&[2u64, 5, 9, 20, 40, 600]), p_send_failed: 10, ..Knobs::default() },
             0 => Knobs::default(),
             1 => Knobs { p_inject_foreign: 100, p_inject_neversent: 100, ..Knobs::default() },
             2 => Knobs { p_send_failed: 60, p_send_inuse: if cfg.proto == Protocol::Tcp { 150 } else { 5 }, ..Knobs::default() },
